@@ -1029,13 +1029,32 @@ def gate_family():
     add("fn() -> String", "", "String", False)
     add("fn() -> i32", "", "i32", False)
     add("fn(bool) -> i32", "a: bool", "i32", False)
+    # product family: every parameter-list shape x every return shape (nested parentheses, arrows and the
+    # word `bool` inside parameters; fn pointers, tuples and wrappers around `bool` as return types) - the
+    # gate has to find the function's own return type whatever the two look like together
+    P = [("", []), ("a: i32", ["i32"]), ("a: (u8, u8)", ["(u8, u8)"]), ("a: ()", ["()"]), ("a: fn(u8) -> u8", ["fn(u8) -> u8"]),
+         ("a: fn(i32) -> bool", ["fn(i32) -> bool"]), ("a: ((u8,), u8), b: i32", ["((u8,), u8)", "i32"]),
+         ("a: fn() -> bool, b: (bool,)", ["fn() -> bool", "(bool,)"]), ("a: fn((u8, u8)) -> (u8, u8)", ["fn((u8, u8)) -> (u8, u8)"]),
+         ("a: Option<fn() -> bool>, b: &str", ["Option<fn() -> bool>", "&str"])]
+    R = [("bool", True), ("fn() -> bool", False), ("fn(i32) -> bool", False), ("fn((u8, u8)) -> bool", False), ("fn() -> fn() -> bool", False),
+         ("Option<bool>", False), ("(bool, bool)", False), ("(bool,)", False), ("", False), ("u8", False), ("bool_", False),
+         ("Option<fn() -> bool>", False), ("fn(bool)", False), ("(u8, fn() -> bool)", False)]
+    have = {g["ty"] for g in G}
+    for params, tys in P:
+        for ret, is_bool in R:
+            ty = "fn(" + ", ".join(tys) + ")" + (f" -> {ret}" if ret else "")
+            if ty not in have:
+                have.add(ty)
+                add(ty, params, ret, is_bool)
     return G
 
 
 def gate_value(ret):
     m = {"bool": "false", "fn() -> bool": "rb as fn() -> bool", "fn(i32) -> bool": "rbi as fn(i32) -> bool", 'unsafe extern "C" fn(i32) -> bool': 'rbc as unsafe extern "C" fn(i32) -> bool',
          "u64": "7", "Option<fn(i32) -> bool>": "None", "Option<bool>": "Some(false)", "&'static bool": "&false", "*const bool": "std::ptr::null()", "u8": "0", "": "()",
-         "bool_": "bool_(0)", "Result<bool, ()>": "Ok(false)", "(bool, bool)": "(false, false)", "[bool; 1]": "[false]", "String": "String::new()", "i32": "0"}
+         "bool_": "bool_(0)", "Result<bool, ()>": "Ok(false)", "(bool, bool)": "(false, false)", "[bool; 1]": "[false]", "String": "String::new()", "i32": "0",
+         "fn((u8, u8)) -> bool": "rbt as fn((u8, u8)) -> bool", "fn() -> fn() -> bool": "rbb as fn() -> fn() -> bool", "(bool,)": "(false,)",
+         "Option<fn() -> bool>": "None", "fn(bool)": "rub as fn(bool)", "(u8, fn() -> bool)": "(0, rb as fn() -> bool)"}
     return m[ret]
 
 
@@ -1043,7 +1062,7 @@ def gen_c10_program():
     G = gate_family()
     out = ['// generated by /verif/lib/e4.py (C10: which signatures may be forced to a boolean)', '#![allow(non_camel_case_types, unused)]',
            'use injectorpp::interface::injector::*;', 'use std::panic::{catch_unwind, AssertUnwindSafe};',
-           'pub struct bool_(pub u8);', 'fn rb() -> bool { false }', 'fn rbi(_: i32) -> bool { false }', 'unsafe extern "C" fn rbc(_: i32) -> bool { false }',
+           'pub struct bool_(pub u8);', 'fn rb() -> bool { false }', 'fn rbi(_: i32) -> bool { false }', 'unsafe extern "C" fn rbc(_: i32) -> bool { false }', 'fn rbt(_: (u8, u8)) -> bool { false }', 'fn rbb() -> fn() -> bool { rb }', 'fn rub(_: bool) {}',
            'fn bytes(p: *const ()) -> [u8; 16] { let mut b = [0u8; 16]; unsafe { std::ptr::copy_nonoverlapping(p as *const u8, b.as_mut_ptr(), 16) }; b }']
     for i, g in enumerate(G):
         ret = f" -> {g['ret']}" if g["ret"] else ""
